@@ -126,13 +126,14 @@ class Cmp(object):
             self.bitwise += 1
             return True
         err = float(np.abs(got.astype(R.CLD) - exp_ref).max())
-        if np.isfinite(err) and err <= tol:
+        err_impl = float(np.abs(got - exp_impl).max())
+        if (np.isfinite(err) and err <= tol) or (np.isfinite(err_impl) and err_impl <= tol):
             self.fallback += 1
             return True
         j = np.unravel_index(int(np.argmax(np.abs(got.astype(R.CLD) - exp_ref))), got.shape)
-        self.V(failure, '%s: differs from the one-shot spectra (not bit-identical and %.3g > tol %.3g from the '
-               'definition) first worst at row %d chan %d: got %r want %r'
-               % (what, err, tol, j[0], j[1], complex(got[j]), complex(exp_ref[j])), site)
+        self.V(failure, '%s: not bit-identical to the implementation\'s own one-shot result, and off by %.3g from it / '
+               '%.3g from the definition (tol %.3g); worst at row %d chan %d: got %r, definition %r'
+               % (what, err_impl, err, tol, j[0], j[1], complex(got[j]), complex(exp_ref[j])), site)
         return False
 
 
@@ -245,6 +246,12 @@ def case_stream(c):
     cfgkey = engine.sha([M, P, win, kind, cw, c.get('pos', 0)])
     skeys = set()
     outcomes = set()
+    try:
+        skeys.add(engine.sha([cfgkey, _digest(_new(M, P, win).cache), 0, False]))     # initial state, real object
+    except Exception as e:
+        V('raised', 'constructor raised %s: %s' % (type(e).__name__, e), site='PolyphaseFilterbank.__init__')
+        return res
+    res['state_keys'] = sorted(skeys)
 
     # ---- one-shot, against the definition
     try:
@@ -253,6 +260,9 @@ def case_stream(c):
         Z0 = _new(M, P, win).channelize(z, cache=False)
     except Exception as e:
         V('raised', 'one-shot channelize raised %s: %s' % (type(e).__name__, e))
+        res['n'] += 1
+        res['transitions'] += 1        # the call that raised was executed
+        res['traces'] += 1
         return res
     res['n'] += 3
     res['transitions'] += 3
@@ -283,6 +293,9 @@ def case_stream(c):
             hist = _run_history(fb, x, z, ops, M, N)
         except Exception as e:
             V('raised', '%s: %s: %s' % (label, type(e).__name__, e))
+            res['n'] += 1
+            res['transitions'] += 1
+            res['traces'] += 1
             return False
         res['n'] += 1
         res['traces'] += 1
@@ -363,7 +376,7 @@ def case_pair(c):
             Y1 = _new(M, P, win).channelize(x, cache=False)
         except Exception as e:
             V('raised', 'one-shot channelize raised %s: %s' % (type(e).__name__, e))
-            return {'viol': viol}
+            return {'viol': viol, 'transitions': 1, 'traces': 1}
         if Y1.shape != Yref.shape:
             V('oneshot_shape', 'one-shot returned %s expected %s' % (Y1.shape, Yref.shape))
             return {'viol': viol}
